@@ -1,9 +1,10 @@
-\* sampled: random trees of exactly 4 nodes, depth <= 3, all names, all metadata
+\* sampled: random trees of exactly 4 nodes, depth <= 3, all names, all metadata (incl. modes without permission bits), all Read behaviours
 SPECIFICATION GSpecSim
 CONSTANTS Names <- NamesMore
           Types <- TypesAll
           Bodies <- BodiesAll
-          Modes <- ModesAll
+          Readers <- ReaderClasses
+          Modes <- ModesFive
           Mtimes <- MtimesAll
           MaxNodes = 4
           MaxDepth = 3
